@@ -60,11 +60,18 @@ class ConcatContract(Contract):
         L = self.L
         if obs is None:
             return
-        for o in obs:
-            if O.has_esc(o.text):
-                ctx.grey('esc-in-operand')
-                return
+        esc = any(O.has_esc(o.text) for o in obs)
+        if esc and (call.name != 'join' or exc is not None):
+            ctx.grey('esc-in-operand')
+            return
         det = {'operands': [o.describe() for o in obs], 'op': call.name}
+        if esc:
+            # operands containing escape sequences: the per-character clauses are grey, but join must still equal
+            # the left fold of + (a differential between two paths of the library)
+            ctx.grey('esc-in-operand:per-character-clauses')
+            if is_ansi(L, result):
+                self.join_vs_fold(call, det, result, O.observe(result))
+            return
         ctx.ev('concat')
         if exc is not None:
             ctx.violation('raised', dict(det, error=repr(exc)), call, mech='concat-raised')
@@ -97,6 +104,12 @@ class ConcatContract(Contract):
                 return
             pos += len(o)
         if call.name == 'join' and obs:
+            self.join_vs_fold(call, det, result, r)
+
+    def join_vs_fold(self, call, det, result, r):
+        ctx = self.ctx
+        L = self.L
+        if True:
             ctx.ev('join-vs-fold')
             try:
                 x0 = call.args[0]
@@ -250,6 +263,18 @@ def drive(ctx, mon, tier, only_case=None):
                         a + b
                     except Exception:
                         pass
+        if tail:
+            # plain-str operands carrying escape sequences (each is parsed on its own: an unterminated style ends
+            # with its operand), adjacent to further plain strs
+            try:
+                with mon.quiet():
+                    raw = rng.choice(tail).to_str(reset_end=rng.random() < 0.3, reset_start=rng.random() < 0.2)
+                ops = [rng.choice(tail), raw, rng.choice(['ef', '', 'x', raw])]
+                if rng.random() < 0.4:
+                    ops.insert(0, rng.choice(['\x1b[4m', 'p', '\x1b[1mq']))
+                (L.AnsiString if rng.random() < 0.6 else L.AnsiStr).join(*ops)
+            except Exception:
+                pass
         for _ in range(4):
             seam_workshop(ctx, mon, rng, L)
         for _ in range(2):
